@@ -404,7 +404,6 @@ func runC14(r *core.Run) {
 	r.Coverage["exhaustive"] = false
 }
 
-
 // c14Sources: reading the same data again gives the same values, for every kind of source and every shape of
 // reader.  Within one statement: a query over a common table expression / a sub-query evaluated next to a plain
 // read of the same source (UNION ALL) must give what each part gives alone (RelTrace, kind "concat"); across
